@@ -73,7 +73,7 @@ func (c03) Gen(r *rand.Rand, tier string, idx int) *core.Plan {
 		case x < 6:
 			p.Ops = append(p.Ops, core.Op{Kind: "break", I: []int64{st, int64(r.IntN(4))}}) // 0 empty 1 symlink 2 garbage 3 remove store
 		default:
-			p.Ops = append(p.Ops, core.Op{Kind: "verify", I: []int64{int64(r.IntN(2)), int64(r.IntN(2))}}) // scheme, format
+			p.Ops = append(p.Ops, core.Op{Kind: "verify", I: []int64{int64(r.IntN(2)), int64(r.IntN(2)), int64(r.IntN(3) / 2)}}) // scheme, format, entry point (OCI / blob)
 			nv++
 		}
 		if i > 30 {
@@ -151,6 +151,12 @@ func (l c03) Exec(env *core.Env) *core.Result {
 		applicable = nst - 1 // wildcard
 	}
 	doc := world.OCIDoc(sts...)
+	// the blob document holds the same statements (addressed by name; the last one is the global statement)
+	var bsts []trustpolicy.BlobTrustPolicy
+	for i, st := range sts {
+		bsts = append(bsts, world.BlobStatement(st.Name, "strict", map[string]string{"revocation": "skip", "authenticTimestamp": "log", "expiry": "log"}, st.TrustStores, []string{"*"}, i == len(sts)-1))
+	}
+	bdoc := world.BlobDoc(bsts...)
 
 	var task *rt.Task
 	var trace []map[string]any
@@ -159,7 +165,7 @@ func (l c03) Exec(env *core.Env) *core.Result {
 	task = sim.Go("operator+verifier", func() {
 		ctx := context.Background()
 		rec := &world.RecordingStore{Inner: truststore.NewX509TrustStore(dir.NewSysFS(root))}
-		v, err := verifier.NewVerifierWithOptions(rec, verifier.VerifierOptions{OCITrustPolicy: doc})
+		v, err := verifier.NewVerifierWithOptions(rec, verifier.VerifierOptions{OCITrustPolicy: doc, BlobTrustPolicy: bdoc})
 		if err != nil {
 			res.Violate("HARNESS/verifier", "", "%v (stores %v)", err, sts)
 			return
@@ -253,7 +259,16 @@ func (l c03) Exec(env *core.Env) *core.Result {
 				}
 				rec.Log = nil
 				before := task.FaultsSeen
-				outcome, verr := v.Verify(ctx, desc, sigs[sk], notation.VerifierVerifyOptions{ArtifactReference: "registry.example/app@" + desc.Digest.String(), SignatureMediaType: format})
+				var outcome *notation.VerificationOutcome
+				var verr error
+				if op.Int(2) == 1 {
+					// the blob entry point: the applicable statement is addressed by its name
+					outcome, verr = v.VerifyBlob(ctx, func(digest.Algorithm) (ocispec.Descriptor, error) { return desc, nil }, sigs[sk],
+						notation.BlobVerifierVerifyOptions{SignatureMediaType: format, TrustPolicyName: sts[applicable].Name})
+					res.Probe("verified_through_the_blob_entry_point")
+				} else {
+					outcome, verr = v.Verify(ctx, desc, sigs[sk], notation.VerifierVerifyOptions{ArtifactReference: "registry.example/app@" + desc.Digest.String(), SignatureMediaType: format})
+				}
 				faulted := task.FaultsSeen != before
 				var auth *notation.ValidationResult
 				if outcome != nil {
@@ -264,7 +279,7 @@ func (l c03) Exec(env *core.Env) *core.Result {
 					}
 				}
 				passed := auth != nil && auth.Error == nil
-				key := fmt.Sprintf("scheme=%s applicable=st%d%v listed-%s=%v anchored=%v broken=%q", required, applicable, sts[applicable].TrustStores, required, world.SortedKeys(listed), anchored, broken)
+				key := fmt.Sprintf("entry=%d scheme=%s applicable=st%d%v listed-%s=%v anchored=%v broken=%q", op.Int(2), required, applicable, sts[applicable].TrustStores, required, world.SortedKeys(listed), anchored, broken)
 				trace = append(trace, map[string]any{"verify": key, "authenticity_passed": passed, "calls": fmt.Sprint(rec.Log), "err": fmt.Sprint(verr)})
 				sim.Abstract(fmt.Sprint(key, passed, rec.Log))
 				if passed {
